@@ -18,9 +18,10 @@ def _coop_inst(preemptions, I):
 def main():
     t = tier()
     chk = Check('C15', [MOD + '/internal/queue', 'container/heap', 'container/list'], 'internal/queue',
-                ['C15/zz_verif_c15.go'], installers=[seqchan.install], prelude_pkgname='queue')
+                ['C15/zz_verif_c15.go', 'C15/zz_verif_c15_conc.go', 'C15/zz_verif_c15_coop.go'], installers=[seqchan.install], prelude_pkgname='queue')
     P = MOD + '/internal/queue.'
-    chk.load([P + n for n in ('VerifC15Priority', 'VerifC15NextAll', 'VerifC15SimpleSeq', 'VerifC15Witness')])
+    # one front-end run for the three groups of harnesses; the engine (sequential / BMC / coop) is chosen per job
+    chk.load([P + n for n in ('VerifC15Priority', 'VerifC15NextAll', 'VerifC15SimpleSeq', 'VerifC15Witness', 'VerifC15Concurrent', 'VerifC15Coop')])
     N = 4 if t == 'quick' else 5
     jobs = []
     for n in range(0, N + 1):
@@ -29,28 +30,19 @@ def main():
         jobs.append(Job(P + 'VerifC15NextAll', (n,), cfg={'unwind': 40}))
         jobs.append(Job(P + 'VerifC15SimpleSeq', (n,)))
     jobs.append(Job(P + 'VerifC15Witness', (), witness=True))
-    res = chk.run_jobs(jobs)
     # concurrent part: schedule-symbolic BMC of the real Add / WaitForItem (container/list by FIFO contract)
-    chk2 = Check('C15', [MOD + '/internal/queue'], 'internal/queue', ['C15/zz_verif_c15.go', 'C15/zz_verif_c15_conc.go'],
-                 installers=[seqchan.install, bmc.install], prelude_pkgname='queue')
-    chk2.load([P + 'VerifC15Concurrent'])
     cj = []
-    conc = [(1, 1, 0), (1, 2, 0), (2, 1, 0), (1, 1, 1)] if t == 'quick' else [(1, 1, 0), (1, 2, 0), (1, 3, 0), (2, 1, 0), (1, 1, 1), (1, 2, 1), (2, 1, 1)]
+    conc = [(1, 1, 0), (1, 2, 0)] if t == 'quick' else [(1, 1, 0), (1, 2, 0), (1, 3, 0), (2, 1, 0), (1, 1, 1), (1, 2, 1), (2, 1, 1)]
     for (pr, per, cn) in conc:
-        cj.append(Job(P + 'VerifC15Concurrent', (pr, per, cn), cfg={'unwind': per * pr + 2 + cn, 'timeout_ms': 120000}, max_paths=200000))
-    res += chk2.run_jobs(cj)
-    chk2.cleanup()
+        cj.append(Job(P + 'VerifC15Concurrent', (pr, per, cn), cfg={'unwind': per * pr + 2 + cn, 'timeout_ms': 120000}, max_paths=200000, installers=[bmc.install]))
     # the same contract by the symbolic scheduler inside the interpreter (coop.py), real container/list
-    chk3 = Check('C15', [MOD + '/internal/queue', 'container/list'], 'internal/queue', ['C15/zz_verif_c15.go', 'C15/zz_verif_c15_coop.go'],
-                 installers=[seqchan.install], prelude_pkgname='queue')
-    chk3.load([P + 'VerifC15Coop'])
     kj = []
     grid = [(1, 2, 0, 2), (2, 1, 0, 2), (1, 1, 1, 2)] if t == 'quick' else [(1, 3, 0, 3), (2, 1, 0, 3), (2, 2, 0, 2), (1, 2, 1, 2), (2, 1, 1, 2)]
     for (pr, per, cn, pre) in grid:
         kj.append(Job(P + 'VerifC15Coop', (pr, per, cn), cfg={'unwind': 12}, installers=[functools.partial(_coop_inst, pre)], max_paths=200000,
                       label='VerifC15Coop(%d,%d,%d)[pre<=%d]' % (pr, per, cn, pre)))
-    res += chk3.run_jobs(kj)
-    chk3.cleanup()
+    # heavy BMC jobs first so that the pool is busy from the start
+    res = chk.run_jobs(cj + kj + jobs)
     finish(chk, res, t,
            explanation='Bounded symbolic execution of PriorityQueue (with the real container/heap) and SimpleQueue (with the real '
                        'container/list) instantiated at a harness item type: counters are free 64-bit values, so every relative '
